@@ -113,6 +113,8 @@ class MockCA:
             "order_polls_before_ready": 0,
             "order_polls_before_valid": 0,
             "chain_len": 2,
+            "chain_root": False,          # True: the LAST certificate of a chain of 2 or more is self-signed (the CA
+                                          # includes its root certificate); a list: one per issuance
             "url_host": None,
             "chain_order": "normal",   # "reversed": issuers first, end-entity last
             "order_ident_case": None,  # "upper": DNS names upper-cased in the order objects the CA serves
@@ -777,6 +779,8 @@ class MockCA:
                 pick = lambda v: (v[min(nth, len(v) - 1)] if isinstance(v, list) else v)   # noqa: E731
                 req = {"op": "issue", "csr_b64": od["csr"], "chain_len": pick(o["chain_len"]),
                        "valid_secs": o["valid_secs"], "pad": pick(o.get("chain_pad", 0))}
+                if pick(o.get("chain_root")):
+                    req["chain_root"] = True
                 req.update(self.leaf_names(od, pick(o.get("leaf_sans"))))
                 if pick(o.get("valid_from_offset")) is not None:
                     req["not_before_offset"] = int(pick(o["valid_from_offset"]))
